@@ -99,5 +99,51 @@ def sign_case(maxblob, frag):
                  "reply fragmentation": "every split into recv() results" if frag else "none"}, max_paths=60000)
 
 
+def twice_case(maxdata):
+    """the same key object (built by the real constructor) signs two different requests in a row"""
+    def fn(ctx):
+        import paramiko.agent as AG
+        import paramiko.message as PM
+        import paramiko.util as PU
+        from paramiko.ssh_exception import SSHException
+        blob = b"\x00\x00\x00\x0bunknown-typ" + b"\x01\x02"      # a key type paramiko has no class for
+        sent = []
+        replies = []
+
+        class Conn:
+            def send(self, b):
+                sent.append(b)
+                replies.append(struct.pack(">I", 5) + b"\x0e" + struct.pack(">I", 0))
+                return len(b)
+
+            def recv(self, n):
+                rem = replies[0]
+                replies[0] = rem[n:]
+                if not replies[0]:
+                    replies.pop(0)
+                return rem[:n]
+        agent = AG.AgentSSH()
+        agent._conn = Conn()
+        key = AG.AgentKey(agent, blob)
+        reqs = []
+        with ctx.patches(std_patches(AG, PM, PU, builtins=("int", "ord"))):
+            for i in range(2):
+                algo = ctx.choice("algorithm%d" % i, ALGOS[:5])
+                data = ctx.bytes_upto("data%d" % i, maxdata)
+                reqs.append((algo, data))
+                key.sign_ssh_data(data, algo)
+        ctx.prove(len(sent) == 2, "one-request-per-signature")
+        for i, (algo, data) in enumerate(reqs):
+            ref_body = _cat(ctx, [b"\x0d", struct.pack(">I", len(blob)), blob, struct.pack(">I", len(data)), data,
+                                  struct.pack(">I", _ref_flags(algo))])
+            ref = _cat(ctx, [struct.pack(">I", len(ref_body)), ref_body])
+            ctx.prove(sent[i] == ref, "request-%d-of-the-same-key-carries-its-own-data-and-flags" % i)
+    return Case("two-signatures-one-key", fn,
+                ["one-request-per-signature", "request-0-of-the-same-key-carries-its-own-data-and-flags",
+                 "request-1-of-the-same-key-carries-its-own-data-and-flags"],
+                {"algorithms": ALGOS[:5], "data": "<=%d bytes each" % maxdata})
+
+
 def cases(tier):
-    return [sign_case(2 if tier == "quick" else 4, False), sign_case(1, True)]
+    return [sign_case(2 if tier == "quick" else 4, False), sign_case(1, True),
+            twice_case(2 if tier == "quick" else 3)]
